@@ -44,7 +44,11 @@ type sessRun struct {
 	s       *session
 	ip      *interp
 	pending map[int][]pendingReq // per sink, oldest first
-	queue   map[int][]int        // per source: writes whose response has not been collected
+	// the harness's own request / answer log at the ends it drives itself
+	resp    map[int][]*packet.Packet // per source: the responses received, in order
+	arrived map[int][]*packet.Packet // per sink: the packets that arrived
+	sent    map[int][]*packet.Packet // per sink: the answers given, in order
+	queue   map[int][]int            // per source: writes whose response has not been collected
 }
 
 type runner struct {
@@ -57,7 +61,8 @@ type runner struct {
 func newRunner(f *flow, nsess int) *runner {
 	r := &runner{f: f}
 	for i := 0; i < nsess; i++ {
-		r.ss = append(r.ss, &sessRun{s: openSession(f), ip: newInterp(f.spec), pending: map[int][]pendingReq{}, queue: map[int][]int{}})
+		r.ss = append(r.ss, &sessRun{s: openSession(f), ip: newInterp(f.spec), pending: map[int][]pendingReq{}, queue: map[int][]int{},
+			resp: map[int][]*packet.Packet{}, arrived: map[int][]*packet.Packet{}, sent: map[int][]*packet.Packet{}})
 	}
 	return r
 }
@@ -96,6 +101,7 @@ func (r *runner) collect(sr *sessRun, obs *[]string) {
 					r.failf("source %d: response channel closed while write %d was unanswered", src, w)
 					*obs = append(*obs, fmt.Sprintf("resp(%d,#%d)=closed", src, w))
 				} else {
+					sr.resp[src] = append(sr.resp[src], p)
 					*obs = append(*obs, fmt.Sprintf("resp(%d,#%d)=%s", src, w, canon(p)))
 				}
 			case <-time.After(watchdog):
@@ -131,6 +137,7 @@ func (r *runner) await(o op, sr *sessRun, obs *[]string) {
 				a := as[0]
 				wantA[key] = as[1:]
 				sr.pending[a.sink] = append(sr.pending[a.sink], pendingReq{write: a.write, value: a.value, pck: ev.pck})
+				sr.arrived[a.sink] = append(sr.arrived[a.sink], ev.pck)
 			} else {
 				r.failf("step %v: unexpected arrival %s at a sink (expected %v)", o, key, sr.ip.arrivals)
 			}
@@ -190,7 +197,9 @@ func (r *runner) exec(o op) {
 		}
 		req := q[0]
 		sr.pending[o.node] = q[1:]
-		ok := sr.s.readers[o.node].Receive(packet.New(types.NewInt(req.value + 1000)))
+		back := packet.New(types.NewInt(req.value + 1000))
+		sr.sent[o.node] = append(sr.sent[o.node], back)
+		ok := sr.s.readers[o.node].Receive(back)
 		obs = append(obs, fmt.Sprintf("recv=%v", ok))
 		sr.ip.writes[req.write].outstanding--
 	}
